@@ -10,7 +10,7 @@
 (* The comments "IRP #nnn" name the assertion ids of test/w3c/manifest.xml  *)
 (* (the only copy of the Recommendation's normative text in the sandbox).   *)
 (***************************************************************************)
-EXTENDS Integers, Sequences, FiniteSets, FiniteSetsExt, SequencesExt
+EXTENDS Integers, Sequences, FiniteSets, FiniteSetsExt, SequencesExt, TLC
 
 NS(c) == 1..Len(c.states)          \* state indices
 NT(c) == 1..Len(c.trans)           \* transition indices
@@ -55,19 +55,20 @@ RevSeq(S)  == SetToSortSeq(S, >)
 (* derived fields are defined.                                              *)
 (***************************************************************************)
 Aug(c) ==
-    LET anc  == [s \in NS(c) |-> AncestorsR(c, s)]
-        kids == [s \in NS(c) |-> ChildrenR(c, s)]
-    IN  [id |-> c.id, binding |-> c.binding, vars |-> c.vars, states |-> c.states,
-         trans |-> c.trans, alldata |-> c.alldata,
+    LET anc  == TLCEval([s \in NS(c) |-> AncestorsR(c, s)])
+        kids == TLCEval([s \in NS(c) |-> ChildrenR(c, s)])
+    IN  \* an explicit record (eager), every derived table made explicit by TLCEval
+        [id |-> c.id, binding |-> c.binding, vars |-> c.vars, states |-> c.states,
+         trans |-> c.trans, alldata |-> c.alldata, alphabet |-> c.alphabet,
          anc   |-> anc,
          kids  |-> kids,
-         desc  |-> [s \in NS(c) |-> {x \in NS(c) : s \in anc[x]}],
-         chain |-> [s \in NS(c) |-> SelfAndAncestorsSeqR(c, s)],
-         tof   |-> [s \in NS(c) |->
-                      DocSeq({t \in NT(c) : c.trans[t].src = s /\ c.trans[t].kind = "normal"})],
-         ptr   |-> [s \in NS(c) |->
+         desc  |-> TLCEval([s \in NS(c) |-> {x \in NS(c) : s \in anc[x]}]),
+         chain |-> TLCEval([s \in NS(c) |-> SelfAndAncestorsSeqR(c, s)]),
+         tof   |-> TLCEval([s \in NS(c) |->
+                      DocSeq({t \in NT(c) : c.trans[t].src = s /\ c.trans[t].kind = "normal"})]),
+         ptr   |-> TLCEval([s \in NS(c) |->
                       IF IsPseudo(c, s) /\ \E t \in NT(c) : c.trans[t].src = s
-                      THEN CHOOSE t \in NT(c) : c.trans[t].src = s ELSE 0]]
+                      THEN CHOOSE t \in NT(c) : c.trans[t].src = s ELSE 0])]
 
 Children(c, s)  == c.kids[s]
 Ancestors(c, s) == c.anc[s]
